@@ -205,6 +205,8 @@ pub struct Report {
     pub notes: BTreeMap<String, Value>,
     pub states: BTreeSet<u64>,
     pub extra_states: u64,
+    /// distinct cases that actually exercised the subject (not skipped / not-applicable, at least one execution)
+    pub nontrivial: u64,
     pub transitions: u64,
     pub executions: u64,
     pub validated: u64,
@@ -268,6 +270,7 @@ impl Report {
             notes: BTreeMap::new(),
             states: BTreeSet::new(),
             extra_states: 0,
+            nontrivial: 0,
             transitions: 0,
             executions: 0,
             validated: 0,
@@ -374,6 +377,9 @@ impl Report {
                 self.machinery.push(format!("duplicate case key {}", key));
             }
             self.extra_states += r.extra_states;
+            if r.executions > 0 && !r.outcome.contains("skipped") && !r.outcome.contains("not-applicable") {
+                self.nontrivial += 1;
+            }
             self.transitions += r.transitions.max(1);
             self.executions += r.executions;
             self.validated += r.validated;
@@ -471,6 +477,9 @@ impl Report {
                         self.machinery.push(format!("duplicate case key {}", key));
                     }
                     self.extra_states += v["extra_states"].as_u64().unwrap_or(0);
+                    if v["executions"].as_u64().unwrap_or(0) > 0 && !v["outcome"].as_str().unwrap_or("").contains("skipped") {
+                        self.nontrivial += 1;
+                    }
                     self.transitions += v["transitions"].as_u64().unwrap_or(0).max(1);
                     self.executions += v["executions"].as_u64().unwrap_or(0);
                     self.validated += v["validated"].as_u64().unwrap_or(0);
@@ -606,7 +615,8 @@ impl Report {
                 "transitions": self.transitions.max(1),
                 "traces_validated_against_impl": self.validated,
                 "evaluations": self.executions.max(1),
-                "distinct_nontrivial": states.max(2),
+                "distinct_nontrivial": self.nontrivial,
+                "distinct_nontrivial_rule": "distinct case keys (every choice of the case is in the key) whose run made at least one call into the library and was neither skipped nor not-applicable; schedule explorations add one per distinct schedule",
                 "distinct_outcomes": self.outcomes.len() + self.sub_outcomes.len(),
                 "outcome_histogram": self.outcomes,
                 "sub_outcome_histogram": self.sub_outcomes,
